@@ -28,7 +28,7 @@ def same(a, b):
     return z3.is_true(z3.simplify(I(a) == I(b)))
 
 
-class SymText:
+class SymText(core.MockBase):
     """A str of unknown content: `nchars` code points, `nbytes` UTF-8 bytes (nbytes >= nchars, equal iff ASCII)."""
 
     def __init__(self, name):
@@ -57,7 +57,7 @@ class SymText:
         return f'<SymText {self.name}>'
 
 
-class SymBytes:
+class SymBytes(core.MockBase):
     def __init__(self, text):
         self.text = text
 
@@ -71,7 +71,7 @@ def nbytes_of_text(v):
     return len(v.encode('utf-8'))
 
 
-class SymArray:
+class SymArray(core.MockBase):
     """ndarray of symbolic shape"""
 
     def __init__(self, shape, itemsize, what='zeros'):
@@ -91,7 +91,7 @@ class SymArray:
         return self.count * self.itemsize
 
 
-class Sink:
+class Sink(core.MockBase):
     """Token sink standing in for LowLevelSqw (write side)."""
     instances = []
 
@@ -186,7 +186,7 @@ class Sink:
         self._emit(int(arr.nbytes), 'array', arr)
 
 
-class MemFile:
+class MemFile(core.MockBase):
     """BytesIO stand-in whose content lives in the Sink writing to it"""
 
     def __init__(self, *a):
@@ -200,7 +200,7 @@ class MemFile:
         return MemView(self.sink)
 
 
-class MemView:
+class MemView(core.MockBase):
     def __init__(self, sink):
         self.sink = sink
 
@@ -208,7 +208,7 @@ class MemView:
         return self.sink.end
 
 
-class SymBuffer:
+class SymBuffer(core.MockBase):
     """np.empty((n_pixels, n_rows), float32) used as staging area of one chunk"""
 
     def __init__(self, shape, itemsize):
@@ -236,12 +236,12 @@ class SymBuffer:
         self.cols[i_row] = (value.lo, value.length, value.row.index, value.unit_ok)
 
 
-class BufSlice:
+class BufSlice(core.MockBase):
     def __init__(self, buf, n):
         self.buf, self.n = buf, n
 
 
-class SymRow:
+class SymRow(core.MockBase):
     """One pixel row: a 1-d scipp variable of symbolic length N with a (concrete) unit."""
     bins = None
 
@@ -270,12 +270,12 @@ class SymRow:
         return RowStat(self, 'max')
 
 
-class RowStat:
+class RowStat(core.MockBase):
     def __init__(self, row, what):
         self.row, self.what = row, what
 
 
-class RowSlice:
+class RowSlice(core.MockBase):
     def __init__(self, row, lo, hi):
         self.row, self.lo, self.hi = row, lo, hi
 
@@ -292,7 +292,7 @@ class RowSlice:
         return ConvertedSlice(self, tgt, True)
 
 
-class ConvertedSlice:
+class ConvertedSlice(core.MockBase):
     def __init__(self, sl, unit, ok):
         self.sl, self.unit, self.ok = sl, unit, ok
 
@@ -301,7 +301,7 @@ class ConvertedSlice:
         return RowValues(self.sl.row, self.sl.lo, self.sl.hi - self.sl.lo, self.unit)
 
 
-class RowValues:
+class RowValues(core.MockBase):
     def __init__(self, row, lo, length, unit):
         self.row, self.lo, self.length, self.unit = row, lo, length, unit
         self.unit_ok = True
